@@ -205,8 +205,27 @@ Definition watch_decide (pa : params) (S : N) (P : bytes) (ret : find_ret) (comm
 
 (* ------------------------------------------------------------------ state *)
 
-Record chan := mkChan { c_buf : list (list event); c_closed : bool }.
-Definition empty_chan : chan := mkChan [] false.
+(* linear-time list reversal (List.rev is quadratic); frev l = rev l (List.rev_alt) *)
+Definition frev {A} (l : list A) : list A := rev_append l [].
+
+(* a buffered Go channel of batches. The queue is kept as front ++ rev backR with its length, so that
+   send and receive cost O(1) (amortised) when the model is evaluated; c_buf is the queue in order. *)
+Record chan := mkChan { c_front : list (list event); c_backR : list (list event); c_len : N; c_closed : bool }.
+Definition c_buf (c : chan) : list (list event) := c_front c ++ frev (c_backR c).
+Definition empty_chan : chan := mkChan [] [] 0 false.
+Definition chan_of (items : list (list event)) : chan := mkChan items [] (N.of_nat (length items)) false.
+Definition chan_send (c : chan) (x : list event) : chan :=
+  mkChan (c_front c) (x :: c_backR c) (c_len c + 1) (c_closed c).
+Definition chan_recv (c : chan) : option (list event * chan) :=
+  match c_front c with
+  | b :: f => Some (b, mkChan f (c_backR c) (c_len c - 1) (c_closed c))
+  | [] => match frev (c_backR c) with
+          | [] => None
+          | b :: f => Some (b, mkChan f [] (c_len c - 1) (c_closed c))
+          end
+  end.
+Definition chan_close (c : chan) : chan := mkChan (c_front c) (c_backR c) (c_len c) true.
+Definition chan_len (c : chan) : N := c_len c.       (* len(ch) *)
 
 Inductive phase :=
 | PhSub                     (* AddWatcher done, parked at watch.subscribed *)
@@ -254,10 +273,10 @@ Record sys := mkSys {
 }.
 
 (* the ghost logs are kept newest-first so that a step costs O(1); these are the logs in order *)
-Definition w_got (w : watcher) : list (list event) := rev (w_gotR w).
-Definition w_in (w : watcher) : list event := rev (w_inR w).
-Definition s_cached (s : sys) : list event := rev (s_cachedR s).
-Definition s_hub (s : sys) : list event := rev (s_hubR s).
+Definition w_got (w : watcher) : list (list event) := frev (w_gotR w).
+Definition w_in (w : watcher) : list event := frev (w_inR w).
+Definition s_cached (s : sys) : list event := frev (s_cachedR s).
+Definition s_hub (s : sys) : list event := frev (s_hubR s).
 
 Definition init (l : N) (c0 : N) : sys := mkSys c0 None [] (new_ring l) [] [] false [] [] [].
 
@@ -311,11 +330,10 @@ Definition upd_w (s : sys) (i : nat) (f : watcher -> watcher) : sys := s_set_ws 
 
 (* ------------------------------------------------------------------ hub *)
 
-Definition chan_len (c : chan) : N := N.of_nat (length (c_buf c)).
 
 (* DeleteWatcher body under the lock (watcherhub.go:67-72) *)
 Definition delete_watcher (w : watcher) (dp : nat) (ctxdone : bool) : watcher :=
-  if w_reg w then w_set_hub w false (mkChan (c_buf (w_sub w)) true) dp ctxdone
+  if w_reg w then w_set_hub w false (chan_close (w_sub w)) dp ctxdone
   else w_set_hub w false (w_sub w) dp ctxdone.
 
 (* Stream, one subscriber: select { case sub <- item: default: ...; go DeleteWatcher } *)
@@ -324,7 +342,7 @@ Definition would_drop (pa : params) (w : watcher) : bool := w_reg w && negb (cha
 Definition offer (pa : params) (item : list event) (w : watcher) : watcher :=
   if w_reg w then
     if chan_len (w_sub w) <? p_hub pa then
-      mkW (w_S w) (w_P w) (w_phase w) (w_reg w) (mkChan (c_buf (w_sub w) ++ [item]) (c_closed (w_sub w)))
+      mkW (w_S w) (w_P w) (w_phase w) (w_reg w) (chan_send (w_sub w) item)
           (w_delpend w) (w_ctx w) (w_ctxdone w) (w_filter w) (w_hold w) (w_out w) (w_gotR w) (w_seen_close w)
           (w_base w) (rev_append item (w_inR w)) (w_catch w) (w_snap w) (w_dropped w) (w_gap w || w_dropped w)
     else
@@ -360,7 +378,7 @@ Definition watch_read (s : sys) (w : watcher) : watcher :=
 
 Definition start_proc (w : watcher) (flt : N) (catch : list (list event)) (snap : list event) : watcher :=
   mkW (w_S w) (w_P w) PhRun (w_reg w) (w_sub w) (w_delpend w) (w_ctx w) (w_ctxdone w) flt None
-      (mkChan catch false) (w_gotR w) (w_seen_close w) (w_base w) (w_inR w) (concat catch) snap
+      (chan_of catch) (w_gotR w) (w_seen_close w) (w_base w) (w_inR w) (concat catch) snap
       (w_dropped w) (w_gap w).
 
 Definition watch_spawn (pa : params) (s : sys) (w : watcher) : watcher :=
@@ -383,17 +401,16 @@ Definition proc_step (pa : params) (w : watcher) : watcher :=
       match w_hold w with
       | Some evs =>
           if chan_len (w_out w) <? p_out pa
-          then w_set_pipe w (w_sub w) None (mkChan (c_buf (w_out w) ++ [evs]) (c_closed (w_out w)))
+          then w_set_pipe w (w_sub w) None (chan_send (w_out w) evs)
           else w
       | None =>
-          match c_buf (w_sub w) with
-          | b :: rest =>
+          match chan_recv (w_sub w) with
+          | Some (b, sub') =>
               let evs := filter_by_prefix (filter_by_revision b (w_filter w)) (w_P w) in
-              w_set_pipe w (mkChan rest (c_closed (w_sub w)))
-                         (match evs with [] => None | _ :: _ => Some evs end) (w_out w)
-          | [] =>
+              w_set_pipe w sub' (match evs with [] => None | _ :: _ => Some evs end) (w_out w)
+          | None =>
               if c_closed (w_sub w)
-              then w_set_ctx (w_set_phase (w_set_pipe w (w_sub w) None (mkChan (c_buf (w_out w)) true)) PhDone) true
+              then w_set_ctx (w_set_phase (w_set_pipe w (w_sub w) None (chan_close (w_out w))) PhDone) true
               else w
           end
       end
@@ -401,9 +418,9 @@ Definition proc_step (pa : params) (w : watcher) : watcher :=
   end.
 
 Definition consume_step (w : watcher) : watcher :=
-  match c_buf (w_out w) with
-  | b :: rest => w_set_client w (mkChan rest (c_closed (w_out w))) (b :: w_gotR w) (w_seen_close w)
-  | [] => if c_closed (w_out w) then w_set_client w (w_out w) (w_gotR w) true else w
+  match chan_recv (w_out w) with
+  | Some (b, out') => w_set_client w out' (b :: w_gotR w) (w_seen_close w)
+  | None => if c_closed (w_out w) then w_set_client w (w_out w) (w_gotR w) true else w
   end.
 
 (* ------------------------------------------------------------------ step *)
